@@ -10,7 +10,7 @@ CONSTANTS
   Version = 21
   Deviations = {"RenameKeepsLabel", "WsRemoveKeepsChild", "HoleRemovalKeepsObjectRows", "HoleRemovalKeepsGroupChild", "StalePgIdCache", "EmptyTableRaises", "TableByLabel"}
   MaxLevel = 4
-  Acts = {"AddHole", "AddDepthData", "Protect", "Reopen", "RemoveDataViaWorkspace", "RemoveDataViaParent", "RemoveHoleViaWorkspace", "RemoveHoleViaParent", "CopyGroup"}
+  Acts = {"AddHole", "AddDepthData", "Protect", "SaveHoleAgain", "SetPublic", "Reopen", "RemoveDataViaWorkspace", "RemoveDataViaParent", "RemoveHoleViaWorkspace", "RemoveHoleViaParent", "CopyGroup"}
   TrackSession = TRUE
   Kind = "float"
 VIEW vw
